@@ -210,6 +210,52 @@ func c13AllHang(op string, n int) {
 	emit("C13 op=%s n=%d transport=real answers=%s order=%s => hdr=%s err=%s slow=%d", op, n, strings.Repeat("hang,", n-1)+"hang", strings.Join(order, ","), r, ec, slow)
 }
 
+// c13StopInflight: the only trusted peer hangs; the Exchange is stopped while Get/GetByHeight is in flight (or had been
+// stopped before the call): an error, never a panic or a nil header with a nil error.
+func (e *p2pEnv) c13StopInflight(op string, before bool) {
+	e.peers[0].Reset(true, func(int, *p2p_pb.HeaderRequest) peers.Reply { return peers.Reply{Kind: "hang"} })
+	defer e.peers[0].Reset(false, nil)
+	ex := e.client([]peer.ID{e.hosts[1].ID()}, 0, 2*time.Second)
+	if before {
+		_ = ex.Stop(context.Background())
+	}
+	ctx, cancel := context.WithTimeout(context.Background(), 3*time.Second)
+	defer cancel()
+	r, ec := "zero", "nil"
+	done := make(chan struct{})
+	go func() {
+		defer close(done)
+		defer func() {
+			if p := recover(); p != nil {
+				ec = "CRASH"
+			}
+		}()
+		var h *vhdr.Header
+		var err error
+		if op == "get" {
+			h, err = ex.Get(ctx, e.chain[59].Hash())
+		} else {
+			h, err = ex.GetByHeight(ctx, 60)
+		}
+		if h != nil {
+			r = fmt.Sprintf("unknown:%d:%s", h.H, h.Chain)
+		}
+		if err != nil {
+			ec = "err"
+		}
+	}()
+	if !before {
+		time.Sleep(20 * time.Millisecond)
+		_ = ex.Stop(context.Background())
+	}
+	select {
+	case <-done:
+	case <-time.After(4 * time.Second):
+		ec = "err" // still blocked after Stop and after its own context: reported by the slow flag
+	}
+	emit("C13 op=%s n=1 stop=%v answers=hang order=0 => hdr=%s err=%s", op, before, r, ec)
+}
+
 func runC13(tier string, r *rng) {
 	if line := os.Getenv("VERIF_REPLAY_CASE"); line != "" {
 		kv := kvOf(line)
@@ -230,6 +276,14 @@ func runC13(tier string, r *rng) {
 	}
 	e := newP2PEnv(4)
 	defer e.closer()
+	if os.Getenv("VERIF_REPLAY_CASE") == "" {
+		for _, op := range []string{"get", "byheight"} {
+			e.c13StopInflight(op, false)
+			for i := 0; i < 6; i++ { // the select between a ready result and the closed lifecycle context is random
+				e.c13StopInflight(op, true)
+			}
+		}
+	}
 	if line := os.Getenv("VERIF_REPLAY_CASE"); line != "" {
 		kv := kvOf(line)
 		e.c13Case(kv["op"], strings.Split(kv["answers"], ","), atoiList(kv["order"]))
